@@ -72,7 +72,7 @@ def gen_cases(ctx):
     imp = str(rng.choice(["no", "value", "tensor", "both"], p=[.3, .3, .25, .15]))    # both: missing_input_value configured AND an is_missing tensor passed
     yield {"kind": kind, "units": units, "kp": [float(np.float32(v)) for v in kp], "cyclic": cyc,
            "impute": imp, "missing_output_value": (float(rng.normal()) if imp != "no" and rng.rand() < .5 else None),
-           "missing_input_value": float(rng.choice([-7.0, kp[0], kp[-1] + 3.0])),
+           "missing_input_value": float(rng.choice([-7.0, kp[0], kp[-1] + 3.0, 0.0])),
            "split": bool(rng.rand() < .3), "wide": bool(units > 1 and rng.rand() < .5),
            "logit_scale": float(rng.choice([0.5, 3.0, 30.0, 200.0])),
            # softmax is shift invariant: a large common offset (a restored checkpoint, a long drift) changes nothing
